@@ -172,13 +172,15 @@ package services
 //
 // The DNS proxy: one backend connection for this client; what was read from the client is what is written
 // to the backend (cread: all bytes read from a connection, cout: all bytes written to it), what was read
-// from the backend is what is written back to the client, and the query is reported by one event.
+// from the backend is what is written back to the client, and the query is reported by one event. Every read
+// offers room for the largest datagram (a shorter buffer would cut the message).
 //@ func (*dnsProxy).Handle
 //@   callcount Director.Dial: nbackend
 //@   requires served(conn)
 //@   physical 0 <= nbackend && nbackend < 1<<48 && 0 <= nsends && nsends < 1<<48 && 0 <= conn.consumed && conn.consumed < 1<<49 && 0 <= conn.written && conn.written < 1<<48
 //@   callpre Director.Dial: a1 == caller.conn
 //@   callpre net.Dial: false
+//@   callpre Conn.Read: len(a1) >= 65535
 //@   ensures [dials-backend] (isUDP(conn) || network(raddr(conn)) == "tcp") && result == nil ==> nbackend == old(nbackend) + 1
 //@   ensures [one-backend] nbackend <= old(nbackend) + 1
 //@   ensures [reported] (isUDP(conn) || network(raddr(conn)) == "tcp") && result == nil ==> nsends == old(nsends) + 1
@@ -199,6 +201,7 @@ package services
 //@   callpre Director.Dial: a1 == caller.conn
 //@   callpre net.Dial: false
 //@   callpre http.(*Response).Write: w == caller.conn
+//@   callpre http.(*Request).Write: r.Host == parsedhost && r.Method == parsedmethod && r.URL == parsedurl
 //@   callpre io.MultiWriter: len(writers) == 2 && writers[0] == caller.conn2 && typeis(writers[1], *bytes.Buffer)
 //@   ensures [one-backend] nbackend == old(nbackend) + 1
 //@   ensures [one-reader-client] conn.bufreaders <= 1
